@@ -245,6 +245,7 @@ func c17Unit(j *Job, u *JobUnit) error {
 	iso := make([]obs, len(alpha))
 	for i, c := range alpha {
 		vsync.ResetOnces()
+		vsched.ResetState()
 		w, err := newWorld(u)
 		if err != nil {
 			return err
@@ -294,6 +295,7 @@ func c17Unit(j *Job, u *JobUnit) error {
 		var werr error
 		mk := func() []func() {
 			vsync.ResetOnces()
+			vsched.ResetState()
 			w, err := newWorld(u)
 			if err != nil {
 				werr = err
@@ -365,6 +367,7 @@ func c17Unit(j *Job, u *JobUnit) error {
 	recH = func(d int) error {
 		if d > 0 {
 			vsync.ResetOnces()
+			vsched.ResetState()
 			w, err := newWorld(u)
 			if err != nil {
 				return err
